@@ -780,6 +780,8 @@ pub fn row_leaf(e: &SerializationError) -> String {
     if let Some(t) = e.downcast_ref::<RTE>() {
         return match &t.kind {
             RTK::WrongColumnCount { .. } => "WrongColumnCount".into(),
+            RTK::ValueMissingForColumn { name } => format!("ValueMissingForColumn:{}", vh::hex_bytes(name.as_bytes())),
+            RTK::NoColumnWithName { name } => format!("NoColumnWithName:{}", vh::hex_bytes(name.as_bytes())),
             k => format!("OtherRowTck:{:?}", k).replace(' ', "_"),
         };
     }
